@@ -7,7 +7,8 @@
 (* duty, duties that differ between versions of the dependent root).                            *)
 EXTENDS Controller, Json
 
-CONSTANTS ScenLen, Seeds, StartSlots, MaxHeads
+CONSTANTS ScenLen, Seeds, StartSlots, MaxHeads,
+          Directed      \* TRUE: only start-up, head events, reorgs and delayed replies (search for overlapping refreshes)
 
 VARIABLES hist, nHead
 svars == <<vars, hist, nHead>>
@@ -61,15 +62,16 @@ H(e) == hist' = Append(hist, e)
 SNext ==
     /\ Len(hist) <= ScenLen
     /\ \/ \E w \in BOOLEAN : Start(w) /\ H([ev |-> "Start", w |-> w]) /\ UNCHANGED nHead
-       \/ Crash /\ H([ev |-> "Crash"]) /\ UNCHANGED nHead
-       \/ Advance /\ H([ev |-> "Advance"]) /\ nHead' = 0
-       \/ EpochTick /\ H([ev |-> "EpochTick"]) /\ UNCHANGED nHead
+       \/ ~Directed /\ Crash /\ H([ev |-> "Crash"]) /\ UNCHANGED nHead
+       \/ ~Directed /\ Advance /\ H([ev |-> "Advance"]) /\ nHead' = 0
+       \/ ~Directed /\ EpochTick /\ H([ev |-> "EpochTick"]) /\ UNCHANGED nHead
        \/ \E b \in 0..(MaxEpoch + 1) : Reorg(b) /\ H([ev |-> "Reorg", b |-> b]) /\ UNCHANGED nHead
        \/ \E o \in BOOLEAN : HeadEvent(o) /\ nHead < MaxHeads /\ nHead' = nHead + 1 /\ H([ev |-> "HeadEvent"])
-       \/ \E nm \in DOMAIN jobs, h \in BOOLEAN : Fire(nm, h) /\ H([ev |-> "Fire", k |-> nm[1], n |-> nm[2], h |-> h]) /\ UNCHANGED nHead
+       \/ ~Directed /\ \E nm \in DOMAIN jobs, h \in BOOLEAN : Fire(nm, h) /\ H([ev |-> "Fire", k |-> nm[1], n |-> nm[2], h |-> h]) /\ UNCHANGED nHead
        \/ Internal /\ UNCHANGED <<hist, nHead>>
-       \/ \E k \in {"att", "prop"}, on \in BOOLEAN : Hold(k, on) /\ H([ev |-> "Hold", k |-> k, on |-> on]) /\ UNCHANGED nHead
-       \/ \E t \in tasks : Release(t) /\ H([ev |-> "Release", k |-> t.k, n |-> t.key]) /\ UNCHANGED nHead
+       \/ \E k \in {"att", "prop"}, on \in BOOLEAN : (Directed => on) /\ Hold(k, on) /\ H([ev |-> "Hold", k |-> k, on |-> on]) /\ UNCHANGED nHead
+       \/ \E t \in tasks : Release(t) /\ H([ev |-> "Release", k |-> t.k, n |-> t.key, ver |-> t.ver,
+                                                       late |-> (fetched[<<t.k, t.key>>] # t.ver)]) /\ UNCHANGED nHead
 
 \* configuration families (the cfg file picks one with Cfgs <- ...)
 CfgsSmall == {[p |-> 2, d |-> 12, ep |-> 2, prep |-> 1, fork |-> f, ft |-> t, attd |-> 4, propd |-> pd, syncd |-> 4, vals |-> {1, 2}] :
@@ -81,10 +83,21 @@ CfgsWide == {[p |-> 3, d |-> 6, ep |-> 4, prep |-> 2, fork |-> f, ft |-> t, attd
             \cup {[p |-> 1, d |-> 2, ep |-> 8, prep |-> 5, fork |-> f, ft |-> FALSE, attd |-> 1, propd |-> 0, syncd |-> 1, vals |-> {1, 2}] :
                  f \in {0, 2, 9}}
 
+CfgsGatedOne == {[p |-> 2, d |-> 12, ep |-> 2, prep |-> 1, fork |-> 0, ft |-> FALSE, attd |-> 4, propd |-> 0, syncd |-> 4, vals |-> {1, 2}]}
+CfgsGated == {[p |-> 2, d |-> 12, ep |-> 2, prep |-> 1, fork |-> 0, ft |-> FALSE, attd |-> 4, propd |-> pd, syncd |-> 4, vals |-> {1, 2}] :
+                 pd \in {0, 4}}
+
+\* bound for exhaustive enumeration of short behaviours
+HistBound == Len(hist) <= ScenLen + 1
+
 SSpec == SInit /\ [][SNext]_svars
 
 \* the oracle family is supplied through the constant OraclesFor (cfg: OraclesFor <- SeedOracles)
 SeedOracles(c) == {OracleOf(c, s) : s \in Seeds}
 
 Emit == (Len(hist) = ScenLen + 1 /\ Settled) => PrintT(ToJson(hist))
+
+(* Design-level counterexamples as scenarios: a behaviour at whose end a job made from an older  *)
+(* reply has survived (overlapping refreshes) is written out, to be replayed on the real code.  *)
+EmitStale == (up /\ Quiescent /\ ~NoStaleJob) => PrintT(ToJson(hist))
 =============================================================================
